@@ -1,11 +1,25 @@
 import Driver.Common
 import Sourmash.Model.SetOps
+import Sourmash.Model.Seq
+import Sourmash.Model.SigAdd
 import Sourmash.Spec.SetOps
+import Sourmash.Spec.Kmers
 /-! C03 driver.  `<model>` column: the code-shaped two-pointer model (`Model/SetOps.lean`).
 `<spec>` column: the answer computed from plain list set-operations (`Spec/SetOps.lean`) on the
 *multisets of hashes that were inserted* into each register — for scaled sketches (and for num
 sketches merged at equal `num`) the spec state of a register is the whole insertion history, so
-`merge` is checked against "sketch of the concatenation".  -/
+`merge` is checked against "sketch of the concatenation".
+
+`sigadd` / `sigprot` (`Signature::add_sequence` / `add_protein` over several sketches, T-sig_add).
+`<model>`: the parallel machine of `Model/SigAdd.lean` run on the single-sketch call
+`SigAdd.sketchAdd` (hash stream: the `SeqToHashes` machine of `Model/Seq.lean`; `add_hash`:
+`SetOps.Sk.add · · 1`) — under the in-order schedule for a pool of one thread (= the serial variant,
+`Sourmash.C03.sig_add_serial`), under an all-in-flight schedule in a rotated order otherwise (any
+schedule gives the same sketches when no call fails, `Sourmash.C03.sig_add`).  `<spec>`: every sketch
+updated independently — the sketch that `Spec/SetOps.lean` defines for the hashes that
+`Spec/Kmers.lean` (windows, genetic code; not the state machine) assigns to the sequence under that
+sketch's own ksize / molecule / seed.  After a failing call on several threads the implementation's
+state depends on the schedule; the harness then answers `err <Variant> legal` (see c03.rs).  -/
 open Driver SetOps SetSpec
 
 /-- spec-side register: parameters and the multiset of (hash, abundance) insertions it stands for -/
@@ -142,10 +156,97 @@ def binop (st : St) (op : String) (r1 r2 : Nat) : St × Resp :=
     else (st, { model := "bad-op" })
   | _, _, _, _ => (st, { model := "bad-reg" })
 
+/-! ### `sigadd` / `sigprot` -/
+
+def molK : Mol → Kmers.Mol
+  | .dna => .dna | .protein => .protein | .dayhoff => .dayhoff | .hp => .hp
+
+/-- a sketch of the signature: container type and contents -/
+abbrev SSk := Kind × Sk
+
+def parseSpec (sp : String) : Option (SSk × Bool) :=
+  match sp.splitOn ":" with
+  | [ty, scaled, num, ksize, mol, seed, track] =>
+    some ((if ty == "t" then .tree else .vec,
+           Sk.new scaled.toNat! ksize.toNat! (parseMol mol) seed.toNat! (track == "1") num.toNat!), track == "1")
+  | _ => none
+
+def itemExc : Seq.Item → Except String Nat
+  | .ok h => .ok h.toNat
+  | .errDna => .error "InvalidDNA"
+  | .errHf => .error "InvalidHashFunction"
+  | .panic => .error "PANIC"
+
+/-- the items of `SeqToHashes::new(seq, ksize(), force, is_protein, hash_function(), seed())` -/
+def sigStream (seq : List UInt8) (force isProt : Bool) (s : SSk) : List (Except String Nat) :=
+  (Seq.run (Seq.St.new seq s.2.ksize force isProt (molK s.2.mol) (UInt64.ofNat s.2.seed)) (Seq.fuelFor seq)).map itemExc
+
+/-- `sketch.add_sequence(seq, force)` / `sketch.add_protein(seq)` on one sketch -/
+def sigOne (seq : List UInt8) (force isProt : Bool) : SSk → SSk × Option String :=
+  SigAdd.sketchAdd (sigStream seq force isProt) (fun s h => (s.1, s.2.add s.1 h 1))
+
+def showSk (mins : List Nat) (ab : Option (List Nat)) : String :=
+  showNats mins ++ "/" ++ (match ab with | some l => showNats l | none => "none")
+
+def showSig (l : List SSk) : String := "|".intercalate (l.map (fun s => showSk s.2.mins s.2.abunds))
+
+/-- the schedule the model column is evaluated under -/
+def schedule (threads n : Nat) : List SigAdd.Ev :=
+  if threads ≤ 1 then SigAdd.seqTrace (List.range n)
+  else
+    let order := (List.range n).map (fun i => (i + threads) % n)
+    SigAdd.eagerTrace order.reverse
+
+def sigModel (threads : Nat) (force isProt : Bool) : List SSk → List (List UInt8) → String
+  | sig, [] => "ok " ++ showSig sig
+  | sig, seq :: rest =>
+    let m := SigAdd.exec (sigOne seq force isProt) (SigAdd.Par.init sig) (schedule threads sig.length)
+    if !m.complete then "incomplete-schedule" else
+    match m.result with
+    | none => sigModel threads force isProt m.sketches rest
+    | some e => if threads ≤ 1 then "err " ++ e ++ " " ++ showSig m.sketches else "err " ++ e ++ " legal"
+
+/-- the property's view of one sketch and one sequence: `none` = it says nothing, otherwise the
+non-zero hashes to add (in order) and whether the call must fail -/
+def specHashes (s : Sk) (force isProt : Bool) (seq : List UInt8) : Option (List Nat × Bool) :=
+  let seed := UInt64.ofNat s.seed
+  if s.mol == .dna then
+    if isProt || s.ksize == 0 then none else
+    let evs := Kmers.dnaStream s.ksize seed force seq
+    some (((Kmers.evHashes evs).filter (· != 0)).map UInt64.toNat, !Kmers.evOk evs)
+  else if s.ksize < 3 then none
+  else if isProt then
+    some (((Kmers.proteinHashes (molK s.mol) s.ksize seed seq).filter (· != 0)).map UInt64.toNat, false)
+  else
+    some (((Kmers.translateHashes (molK s.mol) s.ksize seed seq).filter (· != 0)).map UInt64.toNat, false)
+
+/-- spec column: every sketch on its own.  `acc` = the hashes fed to each sketch so far. -/
+def sigSpec (threads : Nat) (force isProt : Bool) (sks : List Sk) :
+    List (List Nat) → List (List UInt8) → String
+  | acc, [] =>
+    "ok " ++ "|".intercalate ((sks.zip acc).map (fun (s, hs) =>
+      let c := sketchPairs s.num s.maxHash (hs.map (fun h => (h, 1)))
+      showSk (c.map Prod.fst) (if s.track then some (c.map Prod.snd) else none)))
+  | acc, seq :: rest =>
+    let per := sks.map (fun s => specHashes s force isProt seq)
+    if per.any Option.isNone then "-" else
+    let per := per.filterMap id
+    if per.any (·.2) then (if threads ≤ 1 then "-" else "err InvalidDNA legal") else
+    sigSpec threads force isProt sks ((acc.zip per).map (fun (a, p) => a ++ p.1)) rest
+
+def sigReq (threads : String) (force isProt : Bool) (specs : String) (seqs : List String) : Resp :=
+  let ps := (specs.splitOn ";").filterMap parseSpec
+  let sig := ps.map (·.1)
+  let bs := seqs.map unhex
+  { model := sigModel threads.toNat! force isProt sig bs,
+    spec := sigSpec threads.toNat! force isProt (sig.map (·.2)) (sig.map (fun _ => [])) bs }
+
 def stepC03 (st : St) (ws : List String) : St × Resp :=
   match ws with
   | "case" :: _ :: ty :: rest =>
     ({ kind := if ty == "tree" then .tree else .vec, nospec := rest.contains "nospec" }, { model := "ok" })
+  | "sigadd" :: threads :: force :: specs :: seqs => (st, sigReq threads (force == "1") false specs seqs)
+  | "sigprot" :: threads :: specs :: seqs => (st, sigReq threads false true specs seqs)
   | ["new", r, scaled, num, ksize, mol, seed, track] =>
     let r := r.toNat!
     let tr := track == "1"
